@@ -66,6 +66,14 @@ def sibsOf (sc : Json) : List Sib :=
 def Sib.at (s : Sib) (t : Nat) : Json :=
   s.ticks.getD (Nat.min (t - s.born) (s.ticks.length - 1)) Json.null
 
+/-- the read the plugin's statistic depends on fails for this sibling on tick `t` -/
+def Sib.missed (s : Sib) (plugin : String) (t : Nat) : Bool :=
+  let m := jstr (s.at t) "miss"
+  match plugin with
+  | "kill_by_pg_scan" => m == "memstat" || m == "nopgscan"
+  | "kill_by_io_cost" => m == "iostat"
+  | _ => false
+
 def tickAt (l : List Json) (t : Nat) : Json := l.getD (Nat.min t (l.length - 1)) Json.null
 
 /-! ### model statistics, generic in the number instance -/
@@ -107,14 +115,18 @@ def statOf (sc : Json) (all : List Sib) (s : Sib) : Stat D F :=
   let avg :=
     if jstr sc "plugin" == "kill_by_memory_size_or_growth" then averageOver (Num.ofInt 4 : D) 0 curs
     else averageUsage (Num.ofInt 4 : D) 0 cur
-  let hasPrev := n ≥ 2 && s.born + 1 ≤ last
+  let plugin := jstr sc "plugin"
+  -- the archive holds exactly the previous tick's sample (CgroupContext::refresh), if that read succeeded
+  let hasPrev := n ≥ 2 && s.born + 1 ≤ last && !s.missed plugin (last - 1)
+  let nowOK := !s.missed plugin last
   let cumNow : D := ioCostCumulative (ioLines D sc t)
   let cumPrev : Option D := if hasPrev then some (ioCostCumulative (ioLines D sc (s.at (last - 1)))) else none
   let pgPrev : Option Int := if hasPrev then some (fInt (s.at (last - 1)) "pgscan") else none
   let dec := fun (k : String) => let d := fDec t k; (Num.ofDec d.1 d.2 : F)
   { id := s.idx, pref := s.prefS, cur := cur, prot := prot, avg := avg, swap := fInt t "swap",
     mp10 := dec "mp10", mp60 := dec "mp60", ip10 := dec "ip10", ip60 := dec "ip60",
-    ioRate := ioCostRate cumPrev cumNow, pgRate := pgScanRate pgPrev (fInt t "pgscan") }
+    ioRate := if nowOK then ioCostRate cumPrev cumNow else Num.zero     -- `io_cost_rate().value_or(0)`
+    pgRate := if nowOK then pgScanRate pgPrev (fInt t "pgscan") else none }
 
 end
 
@@ -174,7 +186,7 @@ def modelAdmits (D F : Type) [Num D] [Num F] [Narrow D F] (v : Variant) (sc : Js
 
 def optIntJ (j : Json) (k : String) : Option Int := (jstr? j k).map sInt
 
-def statDiffs (plugin : String) (m : Stat Float Float32) (r : Json) : List String :=
+def statDiffs (plugin : String) (m : Stat Float Float32) (r : Json) (nowOK : Bool := true) : List String :=
   let ck := fun (name : String) (ok : Bool) => if ok then [] else [name]
   let i := fun (k : String) (v : Int) => ck k (optIntJ r k == some v)
   let f32 := fun (k : String) (v : Float32) => ck k (optIntJ r k == some (v.toBits.toNat : Int))
@@ -186,7 +198,9 @@ def statDiffs (plugin : String) (m : Stat Float Float32) (r : Json) : List Strin
       ck "growth" (optIntJ r "growth" == some ((memoryGrowth (D := Float) m.cur m.avg).toBits.toNat : Int))
   | "kill_by_swap_usage" => i "swap" m.swap ++ i "cur" m.cur ++ i "prot" m.prot
   | "kill_by_pressure" => f32 "mp10" m.mp10 ++ f32 "mp60" m.mp60 ++ f32 "ip10" m.ip10 ++ f32 "ip60" m.ip60
-  | "kill_by_io_cost" => ck "iorate" (optIntJ r "iorate" == some (m.ioRate.toBits.toNat : Int))
+  | "kill_by_io_cost" =>
+    if nowOK then ck "iorate" (optIntJ r "iorate" == some (m.ioRate.toBits.toNat : Int))
+    else ck "iorate" (optIntJ r "iorate" == none)
   | "kill_by_pg_scan" => ck "pgrate" (optIntJ r "pgrate" == m.pgRate)
   | _ => []
 
@@ -249,6 +263,7 @@ structure Raw where
   ioPrev : Option Rat
   pgNow : Int
   pgPrev : Option Int
+  nowOK : Bool := true      -- this tick's sample could be read
 
 def ioExact (sc : Json) (tick : Json) : Rat :=
   ((ioLines Rat sc tick).map fun l =>
@@ -260,12 +275,14 @@ def rawOfSib (sc tr : Json) (s : Sib) : Raw :=
   let last := n - 1
   let t := s.at last
   let rep := jobj (jobj tr "stats") s.name
-  let hasPrev := n ≥ 2 && s.born + 1 ≤ last
+  let plugin := jstr sc "plugin"
+  let hasPrev := n ≥ 2 && s.born + 1 ≤ last && !s.missed plugin (last - 1)
   let mean := fun (a b : String) => (decRat (fDec t a) + decRat (fDec t b)) / 2
   { s := s, cur := fInt t "cur", prot := (optIntJ rep "prot").getD 0, avg := (optIntJ rep "avg").getD 0,
     swap := fInt t "swap", mpMean := mean "mp10" "mp60", ipMean := mean "ip10" "ip60",
     ioNow := ioExact sc t, ioPrev := if hasPrev then some (ioExact sc (s.at (last - 1))) else none,
-    pgNow := fInt t "pgscan", pgPrev := if hasPrev then some (fInt (s.at (last - 1)) "pgscan") else none }
+    pgNow := fInt t "pgscan", pgPrev := if hasPrev then some (fInt (s.at (last - 1)) "pgscan") else none
+    nowOK := !s.missed plugin last }
 
 def point (r : Raw) (e : Tri) (k : Rat) : Cand := { idx := r.s.idx, pref := r.s.prefS, elig := e, lo := k, hi := k }
 
@@ -307,27 +324,30 @@ def judgePressure (sc : Json) (raws : List Raw) (order : List Nat) : Verdict :=
     | [] => false
   { v with cls := if v.viol.isEmpty then "" else if sameBucket then "pressure-int-truncation-tie" else (v.viol.headD "").replace "." "-" }
 
-/-- kill_by_io_cost: "the largest io-cost increase" -/
+/-- kill_by_io_cost: "the largest io-cost increase": the difference to the PREVIOUS tick's value; a sibling
+    without a sample on this or on the previous tick has no increase (0) -/
 def judgeIoCost (raws : List Raw) (order : List Nat) : Verdict :=
   let mk := fun (margin : Bool) => raws.map fun r =>
-    match r.ioPrev with
-    | some p =>
+    match r.nowOK, r.ioPrev with
+    | true, some p =>
       let d := r.ioNow - p
       let m : Rat := if margin then (rabs r.ioNow + rabs p) / pow2 45 else 0
       { idx := r.s.idx, pref := r.s.prefS, elig := Tri.yes, lo := d - m, hi := d + m : Cand }
-    | none => -- no history: the text does not say what the increase of a new cgroup is
-      { idx := r.s.idx, pref := r.s.prefS, elig := Tri.yes, lo := rmin 0 r.ioNow, hi := rmax 0 r.ioNow : Cand }
+    | _, _ => point r Tri.yes 0
   let v := judgeSimple "iocost" false (mk true) (mk false) order
-  { v with cls := if v.viol.isEmpty then "" else (v.viol.headD "").replace "." "-" }
+  let gap := raws.any fun r => !r.nowOK || r.ioPrev.isNone
+  { v with cls := if v.viol.isEmpty then "" else if gap then "iocost-increase-not-to-previous-tick" else (v.viol.headD "").replace "." "-" }
 
-/-- kill_by_pg_scan: "the largest positive pgscan increase" -/
+/-- kill_by_pg_scan: "the largest positive pgscan increase": the difference to the PREVIOUS tick's value; a sibling
+    without a sample on this or on the previous tick has no increase and fails the filter -/
 def judgePgScan (raws : List Raw) (order : List Nat) : Verdict :=
   let cands := raws.map fun r =>
-    match r.pgPrev with
-    | some p => point r (if r.pgNow - p > 0 then Tri.yes else Tri.no) ((r.pgNow - p : Int) : Rat)
-    | none => { idx := r.s.idx, pref := r.s.prefS, elig := Tri.maybe, lo := 0, hi := rmax 0 r.pgNow : Cand }
+    match r.nowOK, r.pgPrev with
+    | true, some p => point r (if r.pgNow - p > 0 then Tri.yes else Tri.no) ((r.pgNow - p : Int) : Rat)
+    | _, _ => point r Tri.no 0
   let v := judgeSimple "pgscan" true cands cands order
-  { v with cls := if v.viol.isEmpty then "" else (v.viol.headD "").replace "." "-" }
+  let gap := raws.any fun r => !r.nowOK || r.pgPrev.isNone
+  { v with cls := if v.viol.isEmpty then "" else if gap then "pgscan-increase-not-to-previous-tick" else (v.viol.headD "").replace "." "-" }
 
 def insertDescR (x : Int) : List Int → List Int
   | [] => [x]
@@ -441,7 +461,7 @@ def handle (j : Json) : Json :=
       let statsF : List (Stat Float Float32) := targets.map (statOf Float Float32 sc all)
       let statsR : List (Stat Rat Rat) := targets.map (statOf Rat Rat sc all)
       let diffs := (targets.zip statsF).flatMap fun (s, m) =>
-        (statDiffs plugin m (jobj (jobj tr "stats") s.name)).map (s.name ++ "." ++ ·)
+        (statDiffs plugin m (jobj (jobj tr "stats") s.name) (!s.missed plugin (jnat sc "nticks" - 1))).map (s.name ++ "." ++ ·)
       let admF := modelAdmits Float Float32 Variant.fixed sc statsF order
       let admLegacy := modelAdmits Float Float32 Variant.legacy sc statsF order
       let admR := modelAdmits Rat Rat Variant.fixed sc statsR order
